@@ -191,7 +191,13 @@ def case_analysis(run, P, b, T, succ):
             return ('BA', neg != nm.endswith('is_none'))
         if nm == 'common::path::PathImpl::is_empty' and a and a[0] == 'call' and a[1].endswith('RiRefImpl::path') and a[2] and a[2][0][:2] == ('arg', 2):
             return ('BE', neg)
-        # any other test that looks at the reference's PATH is unknown to the case analysis (fail closed); tests of its query / fragment or of
+        # the query rule of RFC 3986 5.2.2 (empty reference path): T.query = R.query if R.query is DEFINED, else Base.query — the only test
+        # of the reference's query that selects is "is it defined"; any other test of it is unknown (fail closed)
+        if (nm.endswith('Option::<T>::is_some') or nm.endswith('Option::<T>::is_none')) and a and a[0] == 'call' and a[1].endswith('RiRefImpl::query') and a[2] and a[2][0][:2] == ('arg', 1):
+            return ('Q', neg != nm.endswith('is_none'))
+        if any(isinstance(x, tuple) and x and x[0] == 'call' and x[1].endswith('RiRefImpl::query') and x[2] and x[2][0][:2] == ('arg', 1) for x in terms.walk(t)):
+            return ('?' + nm + ' (of the query of the reference)', neg)
+        # any other test that looks at the reference's PATH is unknown to the case analysis (fail closed); tests of its fragment or of
         # the base only select sub-cases and put no constraint on the path
         if any(isinstance(x, tuple) and x and x[0] == 'call' and x[1].endswith('RiRefImpl::path') and x[2] and x[2][0][:2] == ('arg', 1) for x in terms.walk(t)):
             return ('?' + nm, neg)
@@ -317,6 +323,7 @@ def case_analysis(run, P, b, T, succ):
             npaths += 1
             # the treatment of the path on this CFG path
             kinds = set()
+            qsets = []
             for bi in path:
                 tt = b['blocks'][bi]['term']
                 if tt['k'] != 'call':
@@ -331,11 +338,27 @@ def case_analysis(run, P, b, T, succ):
                     recv = T.operand(tt['args'][0])
                     if recv[0] == 'call' and recv[1].endswith('::path_mut') and recv[2][0][:2] == ('arg', 1):
                         kinds.add('own')
+                elif c.endswith('::set_query') and on_self:
+                    src = T.operand(tt['args'][1])
+                    qsets.append('base' if (src[0] == 'call' and src[1].endswith('RiRefImpl::query') and src[2] and src[2][0][:2] == ('arg', 2)) else 'other')
             kind = 'copy' if 'copy' in kinds else 'merge' if 'merge' in kinds else 'own' if 'own' in kinds else 'none'
             if 'copy' in kinds and 'own' in kinds:
                 run.violation('cases|copy-normalised', f'{P.where(b)} resolve: on a path that takes the base path (reference with an empty path) the path is also normalised — RFC 3986 5.2.2 takes the base path verbatim (T.path = Base.path)')
             S = next((v for (a, v) in asm if a == 'S'), None)
             A = next((v for (a, v) in asm if a == 'A'), None)
+            # the query of the target (RFC 3986 5.2.2): the base's query is taken exactly on the paths that copy the base path AND on which
+            # the reference's query is established to be undefined; on every other path the reference keeps its own query
+            Q = next((v for (a, v) in asm if a == 'Q'), None)      # True: the reference's query is defined (is_some)
+            if not any(a.startswith('?') for (a, v) in asm):
+                run.count('query_rule_paths')
+                if 'other' in qsets:
+                    run.violation('query|other', f'{P.where(b)} resolve sets the query of the reference to something that is not the query of the base')
+                elif qsets and not ('copy' in kinds and Q is False):
+                    run.violation('query|base-taken', f'{P.where(b)} resolve takes the query of the base on a path where ' + ('the path of the base is not taken (reference path not empty)' if 'copy' not in kinds else 'it is not established that the reference has NO query (Option::is_none): a present-but-empty query is a defined query (RFC 3986 5.2.2)'))
+                elif 'copy' in kinds and Q is False and not qsets:
+                    run.violation('query|base-dropped', f'{P.where(b)} resolve: a reference with an empty path and no query does not get the query of the base (RFC 3986 5.2.2)')
+                elif 'copy' in kinds and Q is None:
+                    run.violation('query|untested', f'{P.where(b)} resolve: on a path that takes the base path the query of the reference is not tested for being defined')
             unknown = [a for (a, v) in asm if a.startswith('?')]
             if unknown:
                 run.violation(f'cases|unknown|{unknown[0][1:60]}', f'{P.where(b)} resolve branches on {unknown[0][1:]}, a test of the reference that the case analysis does not know')
@@ -384,6 +407,7 @@ def case_analysis(run, P, b, T, succ):
             if s2 not in path and len(path) < 400:
                 stack.append((s2, path + (s2,), asm, env))
     run.count('case_paths', npaths)
+    run.floor('query_rule_paths', 4, 'CFG paths of resolve on which the query rule of RFC 3986 5.2.2 is checked')
     run.floor('merge_paths', 2, 'CFG paths of resolve that merge the reference path with the base path')
 
     def union(ls):
